@@ -71,6 +71,8 @@ class Stats:
             return
         for c in info.get('classes', ()):
             self.classes[c] += 1
+        for k, n in info.get('excluded', {}).items():
+            self.excluded[k] += n
         for k, v in info.get('max', {}).items():
             if v > self.maxima.get(k, float('-inf')):
                 self.maxima[k] = v
